@@ -323,8 +323,11 @@ def run_case(case):
             with boot.quiet():
                 d.Flow([{'a': 1, 'b': 'x'}, {'a': None, 'b': 'y'}, {'a': 3, 'b': None}], d.dump_to_path('emv')).process()
             opt = rng.choice([True, {'values': ['']}, {'target': 'mv'}])
-            mk = lambda e: [d.load('emv/datapackage.json', extract_missing_values=copy.deepcopy(opt)), d.validate()]   # noqa
-            label = 'load_package/extract_missing_values'
+            taken_ = rng.random() < 0.5
+            # ... also when the flow already has a resource of that name (the loaded one gets a free name)
+            pre_ = lambda: [lab.source('res_1', [{'name': 'z', 'type': 'integer'}], [{'z': 1}])] if taken_ else []     # noqa: E731
+            mk = lambda e: pre_() + [d.load('emv/datapackage.json', extract_missing_values=copy.deepcopy(opt)), d.validate()]   # noqa
+            label = 'load_package/extract_missing_values' + ('/name_taken' if taken_ else '')
         elif kind == 'pk_then_field_op':
             # a field-level step touches a primary-key field: the emitted primaryKey must keep naming declared fields
             rows = [{'id': i, 'v': i % 3, 'w': 'abc'[i % 3], 'x': i * 2} for i in range(rng.choice([1, 6, 30]))]
